@@ -24,7 +24,10 @@ func NewC08(st *Stats) *C08 { return &C08{stats: st} }
 func (p *C08) ID() string    { return "C08" }
 func (p *C08) Level() string { return "exploration" }
 
-func (p *C08) Prepare(env *Env, tier string, seed uint64) error { return p.w.Load(env) }
+func (p *C08) Prepare(env *Env, tier string, seed uint64) error {
+	p.w.Edge = true
+	return p.w.Load(env)
+}
 
 func (p *C08) Runs(tier string) int {
 	if tier == "thorough" {
@@ -40,7 +43,7 @@ var c08BigDegrees = []string{"22", "29", "36", "43", "57", "64", "100", "b64", "
 func (p *C08) Generate(seed uint64, run int) *Case {
 	r := model.NewRand(seed, fmt.Sprintf("C08/%d", run))
 	o := &model.DocOpts{MaxInsts: 1 + r.Intn(8), ChordNames: p.w.ChordNames, Settings: r.Chance(2, 3), Meta: r.Chance(1, 2), Unicode: r.Chance(1, 3),
-		BigDegrees: r.Chance(1, 3), RestBias: r.Intn(5), TrailRest: r.Chance(1, 4), OddValues: r.Chance(1, 3)}
+		BigDegrees: r.Chance(1, 3), RestBias: r.Intn(5), TrailRest: r.Chance(1, 4), OddValues: r.Chance(1, 3), Dynamics: p.w.Dynamics, EdgeValues: r.Chance(1, 15)}
 	if r.Chance(1, 40) {
 		o.MaxInsts = 100
 	}
@@ -117,6 +120,10 @@ func (p *C08) Generate(seed uint64, run int) *Case {
 	if r.Chance(1, 4) {
 		st.Stdin.Plan = GenPlan(r)
 		st.MapPolicy = model.Pick(r, mapPolicies)
+	}
+	if r.Chance(1, 2) {
+		st.SchedPolicy = model.Pick(r, schedPolicies)
+		st.CPUs = model.Pick(r, []int{1, 2, 4, 16})
 	}
 	c.Steps = append(c.Steps, st)
 	if r.Chance(1, 4) {
